@@ -49,6 +49,7 @@ type Msg struct {
 	Stream int  // moq: 0 = unidirectional stream, 1 = bidirectional stream
 	Covered bool // the single-message mutants of this message are enumerated under another seed with the same prefix
 	PauseMs int  // pause before sending (ordering between connections)
+	WaitResp bool // before sending, wait (bounded) until the server has answered something on this connection
 }
 
 // Seed is one valid unauthenticated exchange with one listener.
@@ -124,10 +125,11 @@ func (e *Exchange) String() string {
 
 // wire is one concrete message to send.
 type wire struct {
-	Data   []byte
-	Conn   int
-	Stream int
-	Pause  int
+	Data     []byte
+	Conn     int
+	Stream   int
+	Pause    int
+	WaitResp bool
 }
 
 // Materialize returns the concrete messages of the exchange. last=true means the connection is closed after them
@@ -157,11 +159,11 @@ func (e *Exchange) Materialize(patch func(i int, d []byte) []byte) []wire {
 		if s.Cookie {
 			data = bytes.ReplaceAll(data, []byte(cookiePlaceholder), []byte(fmt.Sprintf("ck%010d", e.ID)))
 		}
-		w := wire{Data: data, Conn: msg.Conn, Stream: msg.Stream, Pause: msg.PauseMs}
+		w := wire{Data: data, Conn: msg.Conn, Stream: msg.Stream, Pause: msg.PauseMs, WaitResp: msg.WaitResp}
 		if m.Kind == mSwap {
 			// keep the connection / stream layout of the position, swap the contents only
 			p := &s.Msgs[pos]
-			w.Conn, w.Stream, w.Pause = p.Conn, p.Stream, p.PauseMs
+			w.Conn, w.Stream, w.Pause, w.WaitResp = p.Conn, p.Stream, p.PauseMs, p.WaitResp
 		}
 		out = append(out, w)
 		if m.Kind == mTrunc && i == m.Msg {
